@@ -168,6 +168,8 @@ fn main() {
             let prop = &args[2];
             let seed: u64 = args[3].parse().expect("seed");
             let quick = args[4] != "thorough";
+            // the workers inherit the tier (exhaustive rather than strided enumerations in the thorough tier)
+            std::env::set_var("PM_TIER", if quick { "quick" } else { "thorough" });
             let outdir = std::path::PathBuf::from(&args[5]);
             std::fs::create_dir_all(&outdir).expect("outdir");
             let mut st = Stats::default();
